@@ -77,6 +77,15 @@ def all_assigns(root):
     return out
 
 
+KEY_NAMES = {"X", "X1", "X2", "Xt", "resid", "resid1", "resid2", "old_contrib", "old_contrib1", "old_contrib2", "old_value", "idx", "idx1", "idx2", "cidx",
+             "Q", "mu_part", "y", "cline", "dd1", "dd2", "N", "mean", "stddev", "prec"}
+
+
+def aux_env(f):
+    """single-definition helper locals (`coef = self.V2[m]`, `prior_prec = ...`) that the block forms are read through"""
+    return {k: v for k, v in single_defs(f.node).items() if k not in KEY_NAMES}
+
+
 def one(d, name, f):
     v = d.get(name)
     if not v or len(v) != 1:
@@ -129,6 +138,7 @@ def vector_block(ctx, name):
     P, bound, prior_src, kind = BLOCKS[name]
     A = all_assigns(loop)
     two_pos = "idx1" in A
+    aux = aux_env(f)
     # ---------- R4: sufficient statistics
     env = {k: one(A, k, f) for k in ("Xt", "prec") if k in A}
     N = NN(env)
@@ -146,7 +156,7 @@ def vector_block(ctx, name):
     if ok:
         idx = diag[0].target.slice
         idx_src = U(one(A, idx.id, f)) if isinstance(idx, ast.Name) else U(idx)
-        ok = idx_src == "np.diag_indices(self.D)" and NN().n(diag[0].value) == NN().n(parse_expr(prior_src.format(i=i)))
+        ok = idx_src == "np.diag_indices(self.D)" and NN(aux).n(diag[0].value) == NN().n(parse_expr(prior_src.format(i=i)))
     ctx.check("R4", f"{f.site()}::prior-on-diagonal", ok, f"Q[diag] += {prior_src.format(i=i)}",
               f"the prior precision added to Q's diagonal is `{U(diag[0].value) if diag else None}`, expected `{prior_src.format(i=i)}` on np.diag_indices(self.D)")
     draws = [n for n in walk_own(loop) if isinstance(n, ast.Assign) and isinstance(n.value, ast.Call) and attr_tail(n.value) == "sample_mvn_from_precision"]
@@ -167,7 +177,7 @@ def vector_block(ctx, name):
         I = "cidx"
         oc = one(A, "old_contrib", f)
         X = one(A, "X", f)
-        ok_old = U(oc).replace(" ", "") == f"X@self.{P}[{i}]"
+        ok_old = NN(aux).n(oc) == NN().n(parse_expr(f"X @ self.{P}[{i}]"))
         resid = one(A, "resid", f)
         ok_res = NN().n(resid) == NN().n(parse_expr(f"y[{I}] - self.Mu[{I}] + old_contrib"))
         ctx.check("R3", f"{f.site()}::residual", ok_res and ok_old, f"resid == y[{I}] - Mu[{I}] + X @ {P}[{i}] (old contribution)",
@@ -179,7 +189,7 @@ def vector_block(ctx, name):
             ocs = [v for v in A.get(f"old_contrib{kk}", []) if not isinstance(v, ast.List)]
             rs = [v for v in A.get(f"resid{kk}", []) if not isinstance(v, ast.List)]
             ctx.need(len(ocs) == 1 and len(rs) == 1, f"{f.site()}: arm {kk} residual/old contribution not found")
-            ok_old = U(ocs[0]).replace(" ", "") == f"X{kk}@self.{P}[{i}]"
+            ok_old = NN(aux).n(ocs[0]) == NN().n(parse_expr(f"X{kk} @ self.{P}[{i}]"))
             ok_res = NN().n(rs[0]) == NN().n(parse_expr(f"y[idx{kk}] - self.Mu[idx{kk}] + old_contrib{kk}"))
             ctx.check("R3", f"{f.site()}::residual-position-{kk}", ok_res and ok_old, f"resid{kk} == y[idx{kk}] - Mu[idx{kk}] + X{kk} @ {P}[{i}]",
                       f"partial residual of position {kk} is `{U(rs[0])}` with old contribution `{U(ocs[0])}`")
@@ -199,7 +209,7 @@ def vector_block(ctx, name):
     # Mu update after the draw
     upd = [n for n in walk_own(loop) if isinstance(n, ast.AugAssign) and U(n.target.value if isinstance(n.target, ast.Subscript) else n.target) == "self.Mu"]
     ok = len(upd) == 1 and isinstance(upd[0].op, ast.Add) and U(upd[0].target.slice) == I \
-        and NN().n(upd[0].value) == NN().n(parse_expr(f"X @ self.{P}[{i}] - old_contrib")) and draws and upd[0].lineno > draws[0].lineno
+        and NN(aux).n(upd[0].value) == NN().n(parse_expr(f"X @ self.{P}[{i}] - old_contrib")) and draws and upd[0].lineno > draws[0].lineno
     same_block = False
     if ok:
         par = enclosing_map(loop)
@@ -210,51 +220,72 @@ def vector_block(ctx, name):
     return f, loop, i, A
 
 
+def data_arm(v, idxname):
+    """`e if len(idx) > 0 else []` (either polarity) -> e; any other expression is returned unchanged; None if an IfExp of another shape"""
+    if not isinstance(v, ast.IfExp):
+        return v
+    t = U(v.test).replace(" ", "")
+    empty = lambda x: isinstance(x, ast.List) and not x.elts
+    if t in (f"len({idxname})>0", f"len({idxname})!=0", f"len({idxname})", f"len({idxname})>=1", f"0<len({idxname})") and empty(v.orelse):
+        return v.body
+    if t in (f"len({idxname})==0", f"notlen({idxname})", f"0==len({idxname})", f"len({idxname})<1") and empty(v.body):
+        return v.orelse
+    return None
+
+
 def scalar_block(ctx, name):
     f, loop, i = block_loop(ctx, name)
     P, bound, prior_src, kind = BLOCKS[name]
     A = all_assigns(loop)
     prior = prior_src.format(i=i)
+    aux = aux_env(f)
+    I = "cidx" if name == "_W0_step" else "idx"
+    st, pd = prior_arm(loop)
+    in_prior = set(id(x) for b in (st.body if st is not None else []) for x in ast.walk(b))
     mean = one({k: [v for v in vs if not (isinstance(v, ast.Constant))] for k, vs in A.items()}, "mean", f)
-    sds = [v for v in A.get("stddev", []) if "self.prec" in U(v)]
+    sds = [v for v in A.get("stddev", []) if id(v) not in in_prior]
     ctx.need(len(sds) == 1, f"{f.site()}: data-arm stddev not found")
+    env = dict(aux)
+    Ndef = None
+    if "N" in A:
+        Ndef = one(A, "N", f)
+        env["N"] = Ndef
     Nn = NN()
-    denom = f"(self.prec * N + {prior})"
-    ok_mean = Nn.n(mean) == Nn.n(parse_expr(f"self.prec * resid.sum() / {denom}")) or Nn.n(mean) == Nn.n(parse_expr(f"self.prec * np.sum(resid) / {denom}"))
-    ok_sd = Nn.n(sds[0]) == Nn.n(parse_expr(f"1.0 / np.sqrt({denom})"))
-    ctx.check("R4", f"{f.site()}::mean", ok_mean, f"mean == prec * sum(resid) / (prec * N + {prior})", f"conditional mean is `{U(mean)}`")
-    ctx.check("R4", f"{f.site()}::stddev", ok_sd, f"sd == (prec * N + {prior})^(-1/2)", f"conditional sd is `{U(sds[0])}`")
+    Ne = NN(env)
+    denom = f"(self.prec * len({I}) + {prior})"
+    ok_mean = Ne.n(mean) == Nn.n(parse_expr(f"self.prec * resid.sum() / {denom}")) or Ne.n(mean) == Nn.n(parse_expr(f"self.prec * np.sum(resid) / {denom}"))
+    ok_sd = Ne.n(sds[0]) == Nn.n(parse_expr(f"1.0 / np.sqrt({denom})"))
+    ctx.check("R4", f"{f.site()}::mean", ok_mean, f"mean == prec * sum(resid) / (prec * len({I}) + {prior})", f"conditional mean is `{U(inline(mean, env))}`")
+    ctx.check("R4", f"{f.site()}::stddev", ok_sd, f"sd == (prec * len({I}) + {prior})^(-1/2)", f"conditional sd is `{U(inline(sds[0], env))}`")
     draws = [n for n in walk_own(loop) if isinstance(n, ast.Assign) and isinstance(n.value, ast.Call) and attr_tail(n.value) == "normal" and U(n.value.args[0]) == "mean"]
     ok = len(draws) == 1 and U(draws[0].targets[0]) == f"self.{P}[{i}]" and U(draws[0].value.args[1]) == "stddev"
     ctx.check("R4", f"{f.site()}::draw", ok, f"self.{P}[{i}] = normal(mean, stddev)", f"the block's draw is `{U(draws[0]) if draws else None}`")
-    st, pd = prior_arm(loop)
     ok = pd is not None and U(pd.targets[0]) == f"self.{P}[{i}]"
     if ok:
         lenv = {n.targets[0].id: n.value for n in st.body if isinstance(n, ast.Assign) and isinstance(n.targets[0], ast.Name)}
         sd = inline(pd.value.args[1], lenv)
         ok = Nn.n(pd.value.args[0]).is_zero() and Nn.n(sd) == Nn.n(parse_expr(f"1.0 / np.sqrt({prior})"))
     ctx.check("R4", f"{f.site()}::prior-arm", ok, f"without data: N(0, 1/sqrt({prior}))", "the no-data arm does not draw from the prior with the block's prior precision")
-    # N is the number of residual rows
-    Ndef = one(A, "N", f)
+    # N is the number of residual rows (already part of the mean/sd forms when N is spelled len(I) in place)
+    ok_N = Ndef is None or U(Ndef) == f"len({I})"
     if name == "_W0_step":
-        I = "cidx"
-        ok_N = U(Ndef) == f"len({I})"
         resid = one(A, "resid", f)
-        ok_res = Nn.n(resid) == Nn.n(parse_expr(f"y[{I}] - self.Mu[{I}] + self.{P}[{i}]"))
-        ctx.check("R3", f"{f.site()}::residual", ok_res and ok_N, f"resid == y[{I}] - Mu[{I}] + {P}[{i}], N = len({I})", f"partial residual is `{U(resid)}`, N = `{U(Ndef)}`")
         old = one(A, "old_contrib", f)
         old_ok = U(old) == f"self.{P}[{i}]"
         oldname = "old_contrib"
+        renv = dict(aux)
+        if old_ok:
+            renv[oldname] = old
+        ok_res = NN(renv).n(resid) == Nn.n(parse_expr(f"y[{I}] - self.Mu[{I}] + self.{P}[{i}]"))
+        ctx.check("R3", f"{f.site()}::residual", ok_res and ok_N, f"resid == y[{I}] - Mu[{I}] + {P}[{i}], N = len({I})", f"partial residual is `{U(resid)}`, N = `{U(Ndef) if Ndef is not None else None}`")
     else:
-        I = "idx"
-        ok_N = U(Ndef) == f"len({I})"
         old = one(A, "old_value", f)
         old_ok = U(old) == f"self.{P}[{i}]"
         oldname = "old_value"
         for kk in ("1", "2"):
-            rs = [v for v in A.get(f"resid{kk}", []) if not isinstance(v, ast.List)]
-            ctx.need(len(rs) == 1, f"{f.site()}: residual of position {kk} not found")
-            ok_res = Nn.n(rs[0]) == Nn.n(parse_expr(f"y[idx{kk}] - self.Mu[idx{kk}] + old_value"))
+            rs = [data_arm(v, f"idx{kk}") for v in A.get(f"resid{kk}", []) if not isinstance(v, ast.List)]
+            ctx.need(len(rs) == 1 and rs[0] is not None, f"{f.site()}: residual of position {kk} not found")
+            ok_res = NN(aux).n(rs[0]) == Nn.n(parse_expr(f"y[idx{kk}] - self.Mu[idx{kk}] + old_value"))
             ctx.check("R3", f"{f.site()}::residual-position-{kk}", ok_res and old_ok, f"resid{kk} == y[idx{kk}] - Mu[idx{kk}] + {P}[{i}]", f"partial residual of position {kk} is `{U(rs[0])}`")
         ok_st = U(one(A, "resid", f)).replace(" ", "") == "np.concatenate([resid1,resid2])" and U(one(A, "idx", f)).replace(" ", "") == "np.concatenate([idx1,idx2])"
         ctx.check("R3", f"{f.site()}::stack-order", ok_st and ok_N, "resid and idx are stacked in the same order; N = len(idx)", "residuals and indices of the two positions are not stacked in one order / N is not their count")
@@ -499,59 +530,121 @@ def r7(ctx):
     ctx.check("R7", f"{f.site()}::Mu-shifted", ok, "Mu += alpha_new - alpha_old", "the fitted values are not shifted by the change of alpha")
 
 
+def _sum_terms(e):
+    if isinstance(e, ast.BinOp) and isinstance(e.op, ast.Add):
+        return _sum_terms(e.left) + _sum_terms(e.right)
+    return [e]
+
+
 def r8(ctx):
+    """path-sensitive: on every path of sample_mvn_from_precision the returned value is
+         U^-1 z  [+ Q^-1 mu_part | + mu]   with U the upper factor (U^T U = Q)"""
+    from engine.astutil import path_returns
     f = ctx.fn("fast_mvn.sample_mvn_from_precision")
     Qp = f.params[0]
-    A = all_assigns(f.node)
-    # orientation typestate of factor variables
-    orient = {}
-    for k, vs in A.items():
-        for v in vs:
-            e = v.body if isinstance(v, ast.IfExp) else v
-            t = U(e).replace(" ", "")
-            if t == f"np.linalg.cholesky({Qp}).T" or t == f"np.linalg.cholesky({Qp}).transpose()" or t == f"scipy.linalg.cholesky({Qp},lower=False)":
-                orient[k] = "upper"
-            elif t == f"np.linalg.cholesky({Qp})" or t == f"scipy.linalg.cholesky({Qp},lower=True)":
-                orient[k] = "lower"
-    ctx.check("R8", f"{f.site()}::factor", len(orient) >= 1, f"Cholesky factor of Q with known orientation: {orient}",
-              "no Cholesky factor of Q with a recognisable orientation (np.linalg.cholesky(Q)[.T]) found")
-    if not orient:
-        return
-    # noise solve: x = U^{-1} z with U upper (U^T U = Q)  => cov = U^{-1} U^{-T} = Q^{-1}
-    st = [c for c in calls(f.node) if call_name(c) in ("solve_triangular", "sp.linalg.solve_triangular", "scipy.linalg.solve_triangular")]
-    ok = False
-    detail = "solve_triangular call not found"
-    for c in st:
-        F = U(c.args[0])
-        low = kwargs(c).get("lower")
-        trans = kwargs(c).get("trans")
-        low_v = U(low) if low is not None else "False"
-        tr = U(trans) if trans is not None else "0"
-        o = orient.get(F)
-        detail = f"solve_triangular({F} [{o}], z, lower={low_v}, trans={tr})"
-        if o == "upper" and low_v == "False" and tr in ("0", "'N'"):
-            ok = True
-        elif o == "lower" and low_v == "True" and tr in ("1", "'T'", "2", "'C'"):
-            ok = True
+    paths = path_returns(f.node)
+    ctx.need(paths is not None and len(paths) >= 3, f"{f.site()}: body is outside the straight-line/if fragment the path enumeration handles")
+
+    def cond_map(conds):
+        m = {}
+        for t, pol in conds:
+            tt = U(t).replace(" ", "")
+            for nm in ("mu_part", "mu", "chol_factor"):
+                if tt == f"{nm}isnotNone":
+                    m[nm] = pol
+                elif tt == f"{nm}isNone":
+                    m[nm] = not pol
+                elif tt == nm:
+                    m[nm] = pol
+                elif tt == f"not{nm}":
+                    m[nm] = not pol
+        return m
+
+    def orientation(F, cm):
+        t = U(F).replace(" ", "")
+        if t in (f"np.linalg.cholesky({Qp}).T", f"np.linalg.cholesky({Qp}).transpose()", f"scipy.linalg.cholesky({Qp},lower=False)", f"sp.linalg.cholesky({Qp},lower=False)", f"np.transpose(np.linalg.cholesky({Qp}))"):
+            return "upper"
+        if t in (f"np.linalg.cholesky({Qp})", f"scipy.linalg.cholesky({Qp},lower=True)", f"sp.linalg.cholesky({Qp},lower=True)"):
+            return "lower"
+        # documented: with chol_factor the argument is the lower factor
+        if cm.get("chol_factor") is True and t in (f"{Qp}.T", f"{Qp}.transpose()", f"np.transpose({Qp})"):
+            return "upper"
+        if cm.get("chol_factor") is True and t == Qp:
+            return "lower"
+        return None
+
+    n_noise = n_mean = n_paths = 0
+    bad_noise, bad_mean, bad_sum = [], [], []
+    for conds, ret in paths:
+        if ret is None:
+            bad_sum.append("a path returns nothing")
+            continue
+        n_paths += 1
+        cm = cond_map(conds)
+        terms = _sum_terms(ret)
+        noise = []
+        mean = []
+        other = []
+        for t in terms:
+            cn = (call_name(t) or "") if isinstance(t, ast.Call) else ""
+            if cn.endswith("solve_triangular") or cn in ("np.linalg.solve", "numpy.linalg.solve"):
+                noise.append(t)
+            elif cn.endswith("cho_solve") or (isinstance(t, ast.Name) and t.id == "mu"):
+                mean.append(t)
+            else:
+                other.append(t)
+        where = " and ".join(f"{k}={'set' if v else 'unset'}" for k, v in sorted(cm.items())) or "any"
+        if len(noise) != 1 or other:
+            bad_sum.append(f"[{where}] returns `{U(ret)[:120]}`")
+            continue
+        c = noise[0]
+        cn = call_name(c)
+        F = c.args[0]
+        o = orientation(F, cm)
+        if cn.endswith("solve_triangular"):
+            low = kwargs(c).get("lower")
+            trans = kwargs(c).get("trans")
+            low_v = U(low) if low is not None else "False"
+            tr = U(trans) if trans is not None else "0"
+            good = (o == "upper" and low_v == "False" and tr in ("0", "'N'")) or (o == "lower" and low_v == "True" and tr in ("1", "'T'", "2", "'C'"))
+            detail = f"solve_triangular({U(F)} [{o}], z, lower={low_v}, trans={tr})"
         else:
-            ok = False
-            break
-    ctx.check("R8", f"{f.site()}::noise-solve", ok, "noise = U^-1 z with U = chol(Q)^T upper (covariance U^-1 U^-T = Q^-1)",
-              f"{detail}: solving the noise against the lower factor gives covariance (L^T L)^-1 instead of Q^-1 = (L L^T)^-1")
-    cs = [c for c in calls(f.node) if (call_name(c) or "").endswith("cho_solve")]
-    ok = False
-    detail = "cho_solve call not found"
-    for c in cs:
-        tup = c.args[0]
-        if isinstance(tup, ast.Tuple) and len(tup.elts) == 2:
-            F, low = U(tup.elts[0]), U(tup.elts[1])
-            o = orient.get(F)
-            detail = f"cho_solve(({F} [{o}], {low}), {U(c.args[1])})"
-            ok = ((o == "upper" and low == "False") or (o == "lower" and low == "True")) and U(c.args[1]) == "mu_part"
-    ctx.check("R8", f"{f.site()}::mean-solve", ok, "mean = Q^-1 mu_part via cho_solve with the matching triangle flag", f"{detail}: triangle flag does not match the factor / wrong right-hand side")
-    aug = [n for n in walk_own(f.node) if isinstance(n, ast.AugAssign) and isinstance(n.op, ast.Add) and any(c in list(ast.walk(n)) for c in cs)]
-    ctx.check("R8", f"{f.site()}::mean-added-to-noise", len(aug) == 1 and [U(r.value) for r in returns(f.node)] == [U(aug[0].target)], "result = noise + mean",
-              "the solved mean is not added to the noise that is returned")
+            good = o == "upper"
+            detail = f"np.linalg.solve({U(F)} [{o}], z)"
+        n_noise += 1
+        if not good:
+            bad_noise.append(f"[{where}] {detail}")
+        # mean term
+        want = "mu_part" if cm.get("mu_part") else ("mu" if cm.get("mu") else None)
+        if want is None:
+            if mean:
+                bad_mean.append(f"[{where}] adds `{U(mean[0])}` although no mean was requested")
+            continue
+        n_mean += 1
+        if len(mean) != 1:
+            bad_sum.append(f"[{where}] the requested mean ({want}) is not added to the returned noise: `{U(ret)[:120]}`")
+            continue
+        m = mean[0]
+        if want == "mu":
+            if not (isinstance(m, ast.Name) and m.id == "mu"):
+                bad_mean.append(f"[{where}] adds `{U(m)}` instead of mu")
+            continue
+        if not (isinstance(m, ast.Call) and m.args and isinstance(m.args[0], ast.Tuple) and len(m.args[0].elts) == 2):
+            bad_mean.append(f"[{where}] adds `{U(m)[:80]}` instead of cho_solve((factor, flag), mu_part)")
+            continue
+        Fm, low = m.args[0].elts
+        om = orientation(Fm, cm)
+        lowv = U(low)
+        if not (((om == "upper" and lowv == "False") or (om == "lower" and lowv == "True")) and U(m.args[1]) == "mu_part"):
+            bad_mean.append(f"[{where}] cho_solve(({U(Fm)} [{om}], {lowv}), {U(m.args[1])})")
+    ctx.check("R8", f"{f.site()}::factor", n_noise >= 1, f"{n_paths} return paths; Cholesky factor of Q with known orientation on each",
+              "no Cholesky factor of Q with a recognisable orientation (np.linalg.cholesky(Q)[.T]) found")
+    ctx.check("R8", f"{f.site()}::noise-solve", not bad_noise and n_noise >= 1, "noise = U^-1 z with U = chol(Q)^T upper (covariance U^-1 U^-T = Q^-1) on every path",
+              f"{'; '.join(bad_noise)}: solving the noise against the lower factor gives covariance (L^T L)^-1 instead of Q^-1 = (L L^T)^-1")
+    ctx.check("R8", f"{f.site()}::mean-solve", not bad_mean and n_mean >= 2, "mean = Q^-1 mu_part via cho_solve with the matching triangle flag (mu_part given), mu (mu given), none otherwise",
+              f"{'; '.join(bad_mean) or 'no path adds a mean'}: triangle flag does not match the factor / wrong right-hand side")
+    ctx.check("R8", f"{f.site()}::mean-added-to-noise", not bad_sum, "result = noise + mean on every path",
+              f"the returned value is not noise + requested mean: {'; '.join(bad_sum[:3])}")
 
 
 def r9(ctx):
